@@ -12,7 +12,8 @@ EXPLANATION = (
     "set only by inflate::set_dictionary and cleared by reset_keep. ATOM in inflate::set_dictionary: wrap != 0 && mode != Dict -> "
     "StreamError; in mode Dict adler32(1, dict) != checksum -> DataError; the dictionary enters the window with update_checksum = "
     "false; inflate() publishes state.checksum as stream.adler. get_dictionary arithmetic and the actual round trip are not decided. "
-    "GUARD/get-dictionary: deflateGetDictionary copies min(strstart + lookahead, w_size) bytes ending at the current position, only to a non-null destination. SIB/ref-writes for deflateSetDictionary/inflateSetDictionary.")
+    "GUARD/get-dictionary: deflateGetDictionary copies min(strstart + lookahead, w_size) bytes ending at the current position, only to a non-null destination. SIB/ref-writes for deflateSetDictionary/inflateSetDictionary. "
+    "SIB/ref-conditions: the elementary conditions and calls of the zlib-ng functions this code was ported from (oracles/condparity.json, frozen from the vendored C sources) keep a counterpart in the paired zlib-rs function.")
 
 CLAIM = dict(
     text="Static agreement of the three encoder sites that must share the FDICT condition, the save/restore pairing in "
